@@ -55,6 +55,8 @@ func constIntOf(info *types.Info, e ast.Expr) (int64, bool) {
 }
 
 func runC10(w *World, r *Report) {
+	r.Rule("alive", "the stream goroutines cannot panic on a failed call's nil result or on a short byte slice handed to a helper", 2)
+	streamAliveRule(w, r, "alive")
 	r.Rule("stateless", "the stream keeps no package-level state shared between connections (a pool, a cache): frames of one connection are not taken by the parsers of another", 8)
 	importStateless(w, r, "stateless")
 	r.Rule("carried", "de-framing state is declared outside the read loop", 4)
@@ -681,6 +683,9 @@ func runC10(w *World, r *Report) {
 		// what was delivered belongs to the consumer: a receive inside the library (a drain at shutdown)
 		// throws away messages of frames that had arrived complete
 		{so.inboundF, false, map[*FuncInfo]bool{}, "receivers of Inbound inside the library (none)"},
+		// the published failure belongs to the consumer as well: a receive inside the library (a getter that
+		// caches it, a log line at shutdown) takes it off the channel before the consumer looks
+		{so.errorF, false, map[*FuncInfo]bool{}, "receivers of Error inside the library (none)"},
 	}
 	// a helper that only functions of a role call (and that is never started as a goroutine) runs on that
 	// role's goroutine: it belongs to the role
